@@ -30,6 +30,9 @@ pub fn score_eq(got: &[u8], want: f64) -> bool {
 
 /// Array of members (exact order), optionally interleaved with scores compared numerically.
 pub fn chk_zlist(r: &Reply, items: &[(Bytes, f64)], withscores: bool, nil_ok_when_empty: bool) -> Res {
+    if lenient() && matches!(r, Reply::Frame(_)) {
+        return Ok(());
+    }
     if items.is_empty() && nil_ok_when_empty {
         return chk_empty(r, true);
     }
@@ -66,6 +69,9 @@ pub fn chk_zlist(r: &Reply, items: &[(Bytes, f64)], withscores: bool, nil_ok_whe
 }
 
 fn chk_score(r: &Reply, s: f64) -> Res {
+    if lenient() && matches!(r, Reply::Frame(_)) {
+        return Ok(());
+    }
     match r {
         Reply::Frame(f) if string_like(f).map_or(false, |b| score_eq(b, s)) => Ok(()),
         _ => Err(mm(
